@@ -43,6 +43,8 @@ def run(ctx, chk):
     c08.s7s8(fb, Renamed(chk, {"S7": "R6"}))
     chk.rule("R7", "the backend's reply-ack flag is the negotiated one (an awaited acknowledgement is always written)")
     c04.p4(fb, Renamed(chk, {"P4": "R7"}), common.dispatch_fn(fb), "")
+    from . import xlist
+    xlist.apply("C03", fb, chk)
     n = lambda r: len([i for i in chk.instances if i[0] == r])
     chk.floor("R1", n("R1"), 10)
     chk.floor("R2", n("R2"), 5)
